@@ -166,7 +166,8 @@ def r03_3(ctx: Ctx):
         raise AnalysisError("AbstractDeme.n_evaluations vanished")
     rets = [n for n in body_walk(m.node) if isinstance(n, ast.Return)]
     ok = len(rets) == 1 and norm(rets[0].value) == f"{m.self_name()}._problem.n_evaluations"
-    obs.append(ctx.ob("R03.3", m, m.node, status=OK if ok else VIOLATION, detail="deme count = its wrapper's counter" if ok else f"AbstractDeme.n_evaluations returns `{norm(rets[0].value) if rets else '?'}`", construct="deme-count"))
+    definite = len(rets) == 1 and (isinstance(rets[0].value, ast.Constant) or (isinstance(rets[0].value, ast.Call) and norm(rets[0].value.func) == "len"))
+    obs.append(ctx.ob("R03.3", m, m.node, status=OK if ok else VIOLATION if definite else INCONCLUSIVE, detail="deme count = its wrapper's counter" if ok else f"AbstractDeme.n_evaluations returns `{norm(rets[0].value) if rets else '?'}`", construct="deme-count"))
     for ci in ctx.prog.subclasses(base):
         if "n_evaluations" not in ci.methods:
             continue
@@ -177,7 +178,8 @@ def r03_3(ctx: Ctx):
             obs.append(ctx.ob("R03.3", o, o.node, detail="override returns the wrapper's counter", construct=f"{ci.name}.count"))
             continue
         if not (len(rets) == 1 and is_self_attr(rets[0].value, None, sn)):
-            obs.append(ctx.ob("R03.3", o, o.node, status=VIOLATION, detail=f"{ci.name}.n_evaluations returns `{norm(rets[0].value) if rets else '?'}`", construct=f"{ci.name}.count"))
+            const = len(rets) == 1 and isinstance(rets[0].value, ast.Constant)
+            obs.append(ctx.ob("R03.3", o, o.node, status=VIOLATION if const else INCONCLUSIVE, detail=f"{ci.name}.n_evaluations returns `{norm(rets[0].value) if rets else '?'}`" + ("" if const else ": cannot relate it to the evaluations the deme makes"), construct=f"{ci.name}.count"))
             continue
         acc = rets[0].value.attr
         # accumulator: 0 in __init__, `+= <r>.nfev` where r is the result of a scipy call with a forwarding objective
